@@ -36,6 +36,16 @@ CANARIES = [
     ('hash-swap-fields', 'C15', 'src/meta.rs', '        hasher.write(&self.num_pages.to_be_bytes());\n        hasher.write(&self.freelist_page.to_be_bytes());\n', '        hasher.write(&self.freelist_page.to_be_bytes());\n        hasher.write(&self.num_pages.to_be_bytes());\n'),
     ('oldmeta-from-drop-txid', 'C15', 'src/meta.rs', 'tx_id: val.tx_id,', 'tx_id: 0,'),
     ('valid-always', 'C12', 'src/meta.rs', '        self.hash == self.hash_self()\n    }\n\n    pub(crate) fn hash_self(&self) -> u64 {', '        self.hash == self.hash_self() || self.hash == 0\n    }\n\n    pub(crate) fn hash_self(&self) -> u64 {'),
+    ('commit-no-sync-before-header', 'C02', 'src/tx.rs', '                file.flush()?;\n                file.sync_all()?;\n            }\n        }\n', '            }\n        }\n'),
+    ('commit-same-slot', 'C02', 'src/tx.rs', 'let meta_page_id = u64::from(self.meta.meta_page == 0);', 'let meta_page_id = u64::from(self.meta.meta_page != 0);'),
+    ('commit-header-drops-txid', 'C02', 'src/tx.rs', '                m.tx_id = self.meta.tx_id;\n', ''),
+    ('commit-stale-hwm', 'C02', 'src/tx.rs', '            self.meta.num_pages = freelist.meta.num_pages;\n', ''),
+    ('commit-page-wrong-offset', 'C02', 'src/tx.rs', 'file.seek(SeekFrom::Start(self.db.inner.pagesize * page_id))?;', 'file.seek(SeekFrom::Start(self.db.inner.pagesize * (page_id - 1)))?;'),
+    ('commit-grow-too-little', 'C02', 'src/tx.rs', 'let alloc_size = ((size_diff / MIN_ALLOC_SIZE) + 1) * MIN_ALLOC_SIZE;', 'let alloc_size = (size_diff / MIN_ALLOC_SIZE) * MIN_ALLOC_SIZE;'),
+    ('commit-swallow-final-sync', 'C11', 'src/tx.rs', '            file.flush()?;\n            file.sync_all()?;\n\n            let mut lock', '            file.flush()?;\n            let _ = file.sync_all();\n\n            let mut lock'),
+    ('commit-leak-old-freelist', 'C02', 'src/tx.rs', '                freelist.free(self.meta.freelist_page, self.num_freelist_pages);\n', ''),
+    ('commit-skip-last-page', 'C02', 'src/tx.rs', 'for (page_id, (ptr, size)) in freelist.pages.iter() {', 'for (page_id, (ptr, size)) in freelist.pages.iter().skip(1) {'),
+    ('commit-unwrap-write', 'C11', 'src/tx.rs', '                    file.write_all(buf)?;', '                    file.write_all(buf).unwrap();'),
 ]
 
 
